@@ -43,7 +43,8 @@ CONSTANTS Seed,       \* seed of the seeded rows (the harness passes VERIF_SEED)
           Extra,      \* number of seeded rows after the pairwise rows (>= 12 - (NBits+1))
           Cube,       \* TRUE: add the full factorial over CubeFactors (others seeded)
           MaxEvolve,  \* Generate steps on top of earlier output in one project directory
-          EvolveEvery \* every EvolveEvery-th row starts an evolution
+          EvolveEvery,\* every EvolveEvery-th row starts an evolution
+          Repeat      \* Generate steps with UNCHANGED input in the directory of a row with autobindModel
 
 (* ---------------------------------------------------------------- factors *)
 
@@ -84,10 +85,20 @@ ConfigBool == <<
   "execFollow",            \* exec.layout: follow-schema (FALSE: single-file)
   "omit_template_comment", \* resolver.omit_template_comment
   "struct_tag",            \* struct_tag: json
-  "stub"                   \* stubgen plugin writes graph/stub.go
+  "stub",                  \* stubgen plugin writes graph/stub.go
+  "autobindModel"          \* `autobind:` also lists the MODEL OUTPUT PACKAGE (hand-written models are kept next to
+                           \* models_gen.go, the documented way): every later Generate in the directory loads the
+                           \* package that holds the previous run's models_gen.go
 >>
 
-BoolFactors == SchemaBool \o ConfigBool
+\* schema features added after the factor codes were fixed: appended at the END of BoolFactors, so that the
+\* codes of the older factors - and with them their values in every row - stay what they were
+SchemaLate == <<
+  "handInModel"   \* a type whose Go model is HAND-WRITTEN in the model output package: found through autobind
+                  \* (autobindModel) or bound by an explicit models: entry (otherwise)
+>>
+
+BoolFactors == SchemaBool \o ConfigBool \o SchemaLate
 NB == Len(BoolFactors)
 
 \* Schema constructs that trigger KNOWN defects of the generator (open findings of C17, see
@@ -299,16 +310,30 @@ Evolve == /\ out # Pending
           /\ LET n == ((start + step - 1) % NCover) + 1 IN
              row' = [f \in Factors |->
                        IF f \in Held THEN row[f]
-                       ELSE IF f \in Range(SchemaBool) THEN (row[f] \/ CoverSeq[n][f])
+                       ELSE IF f \in Range(SchemaBool) \cup Range(SchemaLate) THEN (row[f] \/ CoverSeq[n][f])
                        ELSE CoverSeq[n][f]]
           /\ out' = Pending
           /\ UNCHANGED <<start, step>>
 
-Next == Generate \/ Evolve
+\* The user runs the generator AGAIN in the same directory with nothing changed (as every `go generate ./...`
+\* does).  The tree now holds the previous output - in particular the previous models_gen.go inside a package
+\* that autobind loads when the row has autobindModel.  Generate stays total: the outcome of the second, third,
+\* ... run is Good like that of the first.  (Rows that evolve already generate MaxEvolve times in one directory;
+\* unchanged re-runs of every other configuration are C18's subject.)
+Evolves == start <= NCover /\ (start % EvolveEvery = 1 \/ EvolveEvery = 1) /\ row["models"] # "bound"
+Again == /\ out # Pending
+         /\ ~Evolves
+         /\ start <= NCover
+         /\ row["autobindModel"]
+         /\ step < Repeat
+         /\ out' = Pending
+         /\ UNCHANGED <<start, step, row>>
+
+Next == Generate \/ Evolve \/ Again
 Spec == Init /\ [][Next]_vars
 
 TypeOK == /\ start \in 1..NRows
-          /\ step \in 0..MaxEvolve
+          /\ step \in 0..(IF MaxEvolve > Repeat THEN MaxEvolve ELSE Repeat)
           /\ \A f \in Factors : row[f] \in Dom(f)
           /\ out \in {Pending, Good}
 
